@@ -204,7 +204,12 @@ pub fn c02(opts: &Opts) -> Report {
             if i % 4 == 1 && !dbg {
                 let b = print_block(&ops);
                 let var = *ctx.rng.pick(&["HOME", "a", "DIR:-${HOME}/x"]);
-                let (text, expect) = if ctx.rng.chance(1, 2) {
+                let (text, expect) = if i % 8 == 5 {
+                    // a mixed template whose block never closes is refused first, on this thread, and must leave nothing behind
+                    for bad in ["id: {split:,:1|", "v={append:\\}", "${x {upper", "a{map:{upper}"] { let _ = real::parse(bad); }
+                    ctx.rep.bump("after_refused_template");
+                    (format!("id: {b}"), vec![Section::Lit("id: ".into()), Section::Sec(ops.clone())])
+                } else if ctx.rng.chance(1, 2) {
                     (format!("${{{var}}}{b}"), vec![Section::Lit(format!("${{{var}}}")), Section::Sec(ops.clone())])
                 } else {
                     (format!("${{{var}}}{b}{b}.bak"), vec![Section::Lit(format!("${{{var}}}")), Section::Sec(ops.clone()), Section::Sec(ops.clone()), Section::Lit(".bak".into())])
@@ -236,7 +241,9 @@ pub fn c11(opts: &Opts) -> Report {
                 // texts whose escaped spelling puts an escaped special right before something a look-ahead of the grammar tests
                 4 => { let a = *ctx.rng.pick(&[":1", ":..", ":-2", "|upper", "|sort", "}|x", "\\}", "a:0b", "é:42", "::3", "|", ":", "\\:1", "{:..}",
                         // the two-character TEXTS backslash + n / t / r / : / | (not the control characters)
-                        "\\n", "\\t", "\\r", "\\:", "\\|", "\\\\"]); if ctx.rng.chance(1, 2) { a.to_string() } else { format!("{}{}", gens::word(&mut ctx.rng), a) } }
+                        "\\n", "\\t", "\\r", "\\:", "\\|", "\\\\",
+                        // texts that look like character ranges
+                        "a-c", "x-z", "1-3", "α-ω", "a-", "-z"]); if ctx.rng.chance(1, 2) { a.to_string() } else { format!("{}{}", gens::word(&mut ctx.rng), a) } }
                 0 => gens::unicode_text(&mut ctx.rng, 8),
                 1 => { let n = 1 + ctx.rng.below(5); (0..n).map(|_| *ctx.rng.pick(&['\\', '{', '}', ':', '|', '\n', '\t', '\r', 'n', 't', 'é', '😀', '/', ' '])).collect() }
                 _ => gens::simple_arg(&mut ctx.rng),
@@ -258,7 +265,12 @@ pub fn c11(opts: &Opts) -> Report {
                 4 => (wrap(format!("split:,:..|join:{e}")), None, Op::Join(s.clone())),
                 5 => (wrap(format!("split:{e}:..|join:,")), None, Op::Split(s.clone(), Range::Range(None, None, false))),
                 6 => (wrap(format!("trim:{e}:both")), None, Op::Trim(s.clone(), TDir::Both)),   // user-level identity checked below
-                _ => { let c = s.chars().next().unwrap_or(' '); (wrap(format!("pad:3:{}:left", esc(&c.to_string()))), None, Op::Pad(3, c, PDir::Left)) }
+                _ => { let c = s.chars().next().unwrap_or(' ');
+                       let (d, dn) = *ctx.rng.pick(&[(PDir::Left, "left"), (PDir::Right, "right"), (PDir::Both, "both")]);
+                       let w = x.chars().count() + 1 + ctx.rng.below(6);
+                       let need = w - x.chars().count();
+                       let (l, r) = match d { PDir::Left => (need, 0), PDir::Right => (0, need), PDir::Both => (need / 2, need - need / 2) };
+                       (wrap(format!("pad:{w}:{}:{dn}", esc(&c.to_string()))), Some(format!("{}{}{}", c.to_string().repeat(l), x, c.to_string().repeat(r))), Op::Pad(w as u128, c, d)) }
             };
             if x.contains('\n') && in_map { return; }
             ctx.rep.eval();
@@ -301,7 +313,7 @@ pub fn c11(opts: &Opts) -> Report {
             // trim: every character of the argument is in the set, exactly as written (white space at the edges of the
             // argument included): s ++ core ++ s trims to core when core shares no character with s
             if which == 6 && !s.trim().is_empty() && !in_map {
-                let core = "0core0";
+                let core = if s.chars().any(|c| "0core0".contains(c)) { "QWQ" } else { "0core0" };
                 if !s.chars().any(|c| core.contains(c)) {
                     let xin = format!("{s}{core}{s}");
                     let want = if mixed { format!("<{core}>") } else { core.to_string() };
@@ -388,6 +400,8 @@ pub fn token_total(max: u32) -> u64 { (1..=max).map(|d| (TOKENS.len() as u64).po
 /// the property's own predicate on one string: accepted => every character is
 /// accounted for by the parsed structure (documented spellings + tolerated band)
 fn c12_predicate(ctx: &mut Ctx, t: &str) -> bool {
+    // a parse that fails half-way through a mixed template, right before the parse under test
+    if t.len() % 7 == 3 { let _ = real::parse("id: {split:,:1|"); let _ = real::parse("${x {upper"); }
     match real::parse(t) {
         real::Parsed::Ok(tpl) => {
             let secs = sections_from_real(&tpl);
@@ -426,6 +440,16 @@ pub fn c12(opts: &Opts) -> Report {
                     ctx.rep.bump("after_shell_variable");
                     format!("{}${{{var}}}{b}{}", if ctx.rng.chance(1, 2) { "p " } else { "" }, if ctx.rng.chance(1, 2) { ".bak" } else { "" })
                 }
+                else if (i - sweep - wrapped) % 10 == 1 {
+                    ctx.rep.bump("near_miss_families");
+                    let bad = ctx.rng.pick(&["{bogus}", "{upper|}", "{split:,}", "{99999999999999999999}", "{map:{map:{upper}}}"]).to_string();
+                    match ctx.rng.below(6) {
+                        0 => format!("${{\\}}{bad}}}"), 1 => format!("${{a\\}}{bad}"), 2 => "${\\{}".to_string(),
+                        3 => format!("{{split:,:..|map:{{replace:s//x/}}}}"),
+                        4 => format!("a{{!!{}}}", print_ops(&wf_pipeline(&mut ctx.rng, 2))),
+                        _ => format!("{{upper}}{{!!}}"),
+                    }
+                }
                 else if (i - sweep - wrapped) % 10 == 7 {
                     // parse a valid block first, then the same block with doubled braces inside literal text:
                     // what the parser saw before must not make the malformed text acceptable
@@ -441,6 +465,30 @@ pub fn c12(opts: &Opts) -> Report {
             if !parse_agree(ctx, "C12", &t).0 { return; }
             if i >= sweep + wrapped && ctx.rep.samples.len() < 4 { ctx.rep.sample(t.clone()); }
         });
+    // the same predicate at the command line: a template FILE is accepted (--validate) exactly when the library accepts
+    // its whole content (less surrounding white space) -- every line of it, not the first
+    if !opts.cli_bin.is_empty() {
+        let dir = std::env::temp_dir().join(format!("sp-verif-c12-{}-{}", std::process::id(), opts.seed));
+        let _ = std::fs::create_dir_all(&dir);
+        let ok = ["{upper}", "a {lower} b", "plain text", "{split:,:..|join:-}"];
+        let bad = ["{nope}", "{upper", "{split:,:99999999999999999999}", "{split:,:..|map:{map:{upper}}}", "{upper|}", "tail {lower"];
+        for k in 0..36usize {
+            let first = ok[k % 4]; let second = if (k / 4) % 2 == 0 { bad[k % 6] } else { ok[(k + 1) % 4] };
+            let content = format!("{first}{}{second}{}", ["\n", "\r\n", "\n\n"][k % 3], ["", "\n"][k % 2]);
+            let f = dir.join(format!("t{k}")); let _ = std::fs::write(&f, &content);
+            let out = std::process::Command::new(&opts.cli_bin).arg("--validate").arg("-t").arg(&f).stdin(std::process::Stdio::null()).output();
+            let _ = std::fs::remove_file(&f);
+            let lib_ok = matches!(real::parse(content.trim()), real::Parsed::Ok(_));
+            rep.evaluations += 1; rep.bump("template_files_validated");
+            match out {
+                Ok(o) => { let cli_ok = o.status.code() == Some(0);
+                    if cli_ok != lib_ok { rep.violation(format!("C12: a template file with the content {content:?} is {} by --validate, but that text is {} by the parser", if cli_ok { "accepted" } else { "rejected" }, if lib_ok { "accepted" } else { "rejected" }),
+                        vec![("kind".into(), "property".into()), ("template".into(), content.clone()), ("route".into(), "string-pipeline --validate -t FILE".into()), ("theorem".into(), "C12_accepted_iff / C13_validate_is_parse".into())]); break; } }
+                Err(e) => { rep.violation(format!("C12: cannot run the CLI binary: {e}"), vec![("kind".into(), "correspondence".into())]); break; }
+            }
+        }
+        let _ = std::fs::remove_dir_all(&dir);
+    }
     rep.exhaustive = true;
     rep.add("token_sweep_strings", sweep + wrapped);
     rep.add("edit_and_numeric_cases", edits);
@@ -490,6 +538,27 @@ pub fn c03(opts: &Opts) -> Report {
                 ctx.rep.bump(if r.starts_with("ok") { "parse_ok" } else { "parse_err" });
             } else {
                 let mut ops = wf_pipeline(&mut ctx.rng, 5);
+                if i % 25 == 11 {
+                    let w = *ctx.rng.pick(&[65_535u128, 65_536, 65_537, 70_000]);
+                    let pd = gens::pdir(&mut ctx.rng);
+                    ops = if ctx.rng.chance(1, 2) { vec![Op::Pad(w, ' ', pd)] } else { vec![Op::Split(",".into(), Range::Range(None, None, false)), Op::Map(vec![Op::Pad(w, ' ', pd)])] };
+                    ctx.rep.bump("pad_width_around_65536");
+                }
+                if i % 25 == 17 {
+                    // list items whose multi-byte characters straddle the tracer's preview limits
+                    ops = vec![Op::Split(",".into(), Range::Range(None, None, false)), Op::Map(vec![Op::Upper])];
+                    ctx.rep.bump("straddling_map_items");
+                }
+                let case_len = i % 25 == 21;
+                if case_len {
+                    // a literal pattern with flag i (and other flag sets) on texts whose characters change their UTF-8
+                    // length under case mapping, some growing, some shrinking, the match in between
+                    let fl = *ctx.rng.pick(&["i", "i", "gi", "", "im", "is"]);
+                    let (pat, rep) = *ctx.rng.pick(&[("x", "-"), ("X", ""), ("k", "<>"), ("ss", "_")]);
+                    let re = Op::Replace(pat.to_string(), rep.to_string(), fl.to_string());
+                    ops = if ctx.rng.chance(1, 2) { vec![re] } else { vec![Op::Split(",".into(), Range::Range(None, None, false)), Op::Map(vec![re])] };
+                    ctx.rep.bump("case_length_changing_texts");
+                }
                 if i % 25 == 7 {
                     // a capture group that exists in the pattern but does not take part in the match
                     let (pat, g) = *ctx.rng.pick(&[("(a)?b", 1u128), ("(\\d+)-|([a-z]+)", 1), ("(\\d+)-|([a-z]+)", 2), ("(x)?(o)", 1), ("(a)|(b)", 2), ("(a)(b)?", 2)]);
@@ -499,7 +568,10 @@ pub fn c03(opts: &Opts) -> Report {
                 }
                 let lit1 = if ctx.rng.chance(1, 2) { straddling_input(&mut ctx.rng) } else { " ".repeat(ctx.rng.below(4)) };
                 let text = match ctx.rng.below(3) { 0 => print_block(&ops), 1 => format!("{lit1}{}", print_block(&ops)), _ => format!("{}{lit1}{}", print_block(&ops), print_block(&[Op::Upper])) };
-                let x = if i % 25 == 7 { ctx.rng.pick(&["b", "abc", "o b", "a", "12- abc b"]).to_string() } else if ctx.rng.chance(2, 3) { straddling_input(&mut ctx.rng) } else { gens::input_for(&mut ctx.rng, &ops) };
+                let x = if case_len {
+                    let n = 2 + ctx.rng.below(5);
+                    (0..n).map(|_| *ctx.rng.pick(&["\u{1E9E}", "\u{212A}", "\u{212B}", "\u{130}", "\u{23A}", "\u{23E}", "x", "X", "k", "ss", "ß", "ŉ", "ǰ", ","])).collect::<String>()
+                } else if i % 25 == 17 { format!("{},{},x", straddling_input(&mut ctx.rng).replace(',', ""), straddling_input(&mut ctx.rng).replace(',', "")) } else if i % 25 == 7 { ctx.rng.pick(&["b", "abc", "o b", "a", "12- abc b"]).to_string() } else if ctx.rng.chance(2, 3) { straddling_input(&mut ctx.rng) } else { gens::input_for(&mut ctx.rng, &ops) };
                 let dbg = ctx.rng.chance(2, 3);
                 ctx.rep.nontrivial(&(text.clone(), x.clone(), dbg));
                 ctx.rep.bump(if dbg { "format_debug_on" } else { "format_debug_off" });
